@@ -106,6 +106,10 @@ def check(chk, repo, tier):
     EF = repo.mod("elements").rel
     templates(chk, repo, gen, ea, EF, tier)
     deep_copy_fresh(chk, repo)
+    # the lazy-list cache is append-only and owned by the list (anchor:
+    # LazyList.py __next__ / __getitem__ / __setitem__) - rules shared with C13
+    from .c13 import cache_discipline  # noqa: PLC0415
+    cache_discipline(chk, repo, "C10")
 
     chk.explanation = (
         "Necessary condition for immutability, decided for the whole "
